@@ -288,6 +288,13 @@ def r4_true_errors(ctx):
     (ENOENT for a missing path, also after the masked-handle retry)."""
     F = ctx.facts
     out = []
+    # the procfs resolver backend is chosen by the same probe: a denied openat2 must select the emulated resolver,
+    # not turn every lookup (of a missing or an existing path) into that denial
+    from .c04 import r8_backend_probe
+    out.extend(r8_backend_probe(ctx, "C08.R4"))
+    # ... and in the resolvers below them a failing system call is reported as what it was
+    from .c04 import error_swaps
+    out.extend(error_swaps(ctx, "C08.R4", lambda b: b.file in ("src/resolvers/procfs.rs", "src/procfs.rs")))
     for fn in (PH + "::open", PH + "::open_noretry", PH + "::readlink"):
         if not F.has(fn):
             if fn.endswith("open_noretry"):
@@ -307,9 +314,49 @@ def r4_true_errors(ctx):
     return out
 
 
+def r5_retry_handle_is_unmasked(ctx):
+    """The ENOENT retry only tells the truth if the handle it retries on really shows everything the caller may see:
+    new_unmasked asks new_fsopen for an unmasked instance (constant false), and with that argument new_fsopen sets no
+    mount option at all (hidepid=/subset= are what make existing paths look missing)."""
+    F = ctx.facts
+    T = ctx.tracer
+    out = []
+    nu, nf = PH + "::new_unmasked", PH + "::new_fsopen"
+    for fn in (nu, nf):
+        if not F.has(fn):
+            return [violated("C08.R5", "%s:present" % short(fn), "", "%s not found" % fn)]
+    bodies = [F.body(nu)] + F.closures_of(nu)
+    calls = [t for cb in bodies for t in cb.calls(nf)]
+    if not calls:
+        out.append(violated("C08.R5", "new_unmasked:fsopen-arg", F.body(nu).where(), "new_unmasked no longer tries a private procfs instance (new_fsopen)"))
+    for t in calls:
+        o = T.origins_of_arg(t, 0)
+        if o and all(x.kind == "const" and x.const_int() == 0 for x in o):
+            out.append(holds("C08.R5", "new_unmasked:fsopen-arg", t.where(), "new_fsopen(false)"))
+        else:
+            out.append(violated("C08.R5", "new_unmasked:fsopen-arg", t.where(), "new_unmasked does not ask for an unmasked instance: %r" % o))
+    b = F.body(nf)
+    cfg = cfg_of(b)
+    if b.argc != 1 or b.local_tys[1] != "bool":
+        out.append(violated("C08.R5", "new_fsopen:unmasked-sets-no-option", b.where(), "new_fsopen no longer takes the single `subset: bool` the rule is written for (%s)" % b.local_tys[1:b.argc + 1]))
+        return out
+    live = set(cfg.reach_assuming({1: ("bool", 0)}))
+    allc = [t for cb in [b] + F.closures_of(nf) for t in cb.calls("syscalls::fsconfig_set_string", "syscalls::fsconfig_set_flag", "rustix::mount::fsconfig_set_string", "rustix::mount::fsconfig_set_flag")]
+    masked = [t for t in allc if t.body is not b or t.bb in live]
+    if masked:
+        out.append(violated("C08.R5", "new_fsopen:unmasked-sets-no-option", masked[0].where(),
+                            "new_fsopen(false) -- the handle the ENOENT retry runs on -- still sets a mount option (%d call(s)): paths hidden by it keep reporting ENOENT although they exist" % len(masked)))
+    elif not allc:
+        out.append(holds("C08.R5", "new_fsopen:unmasked-sets-no-option", b.where(), "new_fsopen sets no mount options at all"))
+    else:
+        out.append(holds("C08.R5", "new_fsopen:unmasked-sets-no-option", b.where(), "all %d option-setting calls are unreachable when subset == false" % len(allc)))
+    return out
+
+
 RULES = [
     ("C08.R1", r1_recursion_witness, 4, False),
     ("C08.R2", r2_constructor_sites, 8, False),
     ("C08.R4", r4_true_errors, 2, False),
     ("C08.R3", r3_retry_condition, 2, False),
+    ("C08.R5", r5_retry_handle_is_unmasked, 2, False),
 ]
